@@ -18,6 +18,9 @@
 //	parse     ParseExprLimit L against L = 0: the outcome under a limit is an error or exactly the
 //	          unlimited outcome, and acceptance is monotone in L.
 //
+//	sweep     bounded exhaustive: every n within a radius of each fixed capacity for every family
+//	          (oracle of the capacity section).
+//
 // The budget oracles (a)-(d) are applied to every case of every section.
 package c07
 
@@ -974,7 +977,7 @@ func TestProp(t *testing.T) {
 
 	// ---------------------------------------------------------------- capacity
 	capRule := "a program family with a closed-form value (n-term sum/&&/||/ternary/else-if chains, the same sum inside if/while/function/computed bodies, n-element list/dict/argument/template-part/statement sequences, n-deep if/template/hole/while/function/paren/array/call/dict nesting, ranges/repeats/concats/slice inserts of n elements, n dice, pools of n, recursion and loops of depth n) with n drawn around the capacity it crosses (8192 instructions, 1000 stack slots, 20 nested blocks, 512 elements, 20000 pool, the operation budget) x OpCountLimit {1000,30000; 10^6 for the long straight-line programs} x mode: the outcome is the closed-form value or an error, plus the budget oracles; non-trivial = n within a factor 2 of the capacity or the run was rejected; distinct by (family, n, m, configuration)"
-	run.Check("capacity", 520, 12000, capRule, func(t *rapid.T, s *rt.Section) {
+	run.Check("capacity", 520, 8000, capRule, func(t *rapid.T, s *rt.Section) {
 		f := familyByName(familyNames()[pick(t, "family", len(families))])
 		c := Case{Fam: f.name, M: rapid.IntRange(0, 1000).Draw(t, "m")}
 		c.Cfg = vmx.Cfg{
@@ -1051,9 +1054,79 @@ func TestProp(t *testing.T) {
 		s.Report(t, fail)
 	})
 
+	// ---------------------------------------------------------------- sweep
+	radius := 2
+	if thorough {
+		radius = 40
+	}
+	sweepRule := fmt.Sprintf("every family that crosses a fixed capacity (8192 instructions, 1000 stack slots, 20 nested blocks, 512 elements, 20000 pool) and the budget families under OpCountLimit 1000, evaluated for every n within %d of the capacity (nesting: every n in 0..%d) with m = 0: closed-form value or an error, plus the budget oracles; every case is non-trivial by construction (n within a factor 2 of the capacity); distinct by (family, n)", radius, capNest+radius+5)
+	run.Enum("sweep", sweepRule, func(s *rt.Section) {
+		s.Exhaustive = true
+		s.Bounds = fmt.Sprintf("families with a fixed capacity x n in [capacity-%d, capacity+%d] (nest families n in [0,%d]); budget families (dice, CoC count, recursion, loop) x OpCountLimit 1000 x n around the budget; m = 0, random mode with a fixed seed (min/max where the closed form needs it)", radius, radius, capNest+radius+5)
+		idx := 0
+		for fi := range families {
+			f := &families[fi]
+			cfg := vmx.Cfg{OpLimit: 30000, SeedHex: "000102030405060708090a0b0c0d0e0f"}
+			var lo, hi int
+			switch f.what {
+			case "code":
+				lo, hi = f.cap-radius, f.cap+radius
+				cfg.OpLimit = 1_000_000
+			case "stack", "len":
+				lo, hi = f.cap-radius, f.cap+radius
+			case "nest":
+				lo, hi = 0, capNest+radius+5
+			case "budget":
+				cfg.OpLimit = 1000
+				switch f.name {
+				case "recur", "nestfunc", "comprecur":
+					lo, hi = 0, 10+radius/2
+				case "loop":
+					lo, hi = 1000/7-radius, 1000/7+radius
+				default:
+					lo, hi = 1000-radius-8, 1000+radius
+				}
+			default:
+				continue
+			}
+			if f.name == "comprecur" && s.Avoid("outer_computed") {
+				continue
+			}
+			if f.needs != nil {
+				f.needs(&cfg)
+			}
+			for n := max(lo, 0); n <= hi; n++ {
+				idx++
+				if idx%run.Env.NShards != run.Env.Shard {
+					continue
+				}
+				c := Case{Fam: f.name, N: n, Cfg: cfg}
+				s.Eval()
+				s.Class("crosses:" + f.what)
+				s.Crumb(c)
+				h := rt.Hash(c.key())
+				s.NonTrivial(h)
+				if n == hi || n == lo {
+					s.Sample(h, c)
+				}
+				fail := checkCapacity(c, s)
+				if fail == nil {
+					if lastOutcome.err != nil {
+						s.Class("rejected")
+					} else {
+						s.Class("value-correct")
+					}
+				}
+				if s.Report(nil, fail) {
+					return
+				}
+			}
+		}
+	})
+
 	// ---------------------------------------------------------------- pad
 	padRule := "P = generated program (statements, functions, computed values, templates, seeded dice of every family, single-key dicts) compared with '424242*0*(1+…+1); P' on a fresh VM of the same seed and configuration, the padding sized so that the 8192th instruction falls at a drawn position inside P (or, while finding C07-F01 is open, stays below it): same result, variables and rest text, or an error; non-trivial = padding + P cross the 8192-instruction capacity, or the padded run was rejected; distinct by (P, padding, configuration)"
-	run.Check("pad", 128, 3000, padRule, func(t *rapid.T, s *rt.Section) {
+	run.Check("pad", 128, 2000, padRule, func(t *rapid.T, s *rt.Section) {
 		c := Case{Cfg: vmx.Cfg{OpLimit: 30000, CoC: true, WoD: true, Fate: true, DC: true,
 			Mode:    rapid.SampledFrom([]string{"", "min", "max"}).Draw(t, "mode"),
 			SeedHex: drawSeed(t)}}
@@ -1354,6 +1427,7 @@ func TestReplay(t *testing.T) {
 	}
 	rt.Replay(t, "C07", map[string]rt.ReplayFunc{
 		"capacity": dec(checkCapacity),
+		"sweep":    dec(checkCapacity),
 		"pad":      dec(checkPad),
 		"budget":   dec(checkBudget),
 		"parse":    dec(checkParse),
